@@ -238,6 +238,19 @@ def generate(chk, infos, quick, c20=False):
                     for i, (k, g) in enumerate(zip(info.args, grids))]
             lines.append(G.gen_case(info, rng, c20=c20, cid= 'g%d' % n, vals=vals))
     byname = {i.name: i for i in infos}
+    # equal and adjacent operands (the boundary of every comparison, x-x, x/x ...) in several shapes
+    for info in tests:
+        if len(info.args) != 2 or info.args[0] != info.args[1] or info.args[0] == 'l':
+            continue
+        g = G.grid_for(info.args[0], rng, info.name, 0)
+        for v in rng.sample(g, 6 if quick else min(len(g), 40)):
+            for dlt in (0, 1, -1):
+                w = v
+                if dlt:
+                    w = (v + dlt) & (G.M64 if info.args[0] in 'id' else 0xffffffff)
+                n += 1
+                lines.append(G.gen_case(info, rng, c20=c20, cid='e%d' % n, vals=[v, w],
+                                        shapes=rng.choice([['r', 'r'], ['r', 'i'], ['r', 'm'], ['i', 'i'], ['m', 'r']]), dst='r'))
     # aimed cases: power-of-two immediates with 32-bit opcodes (transform_mul_div), x*1 / x+0 shortcuts
     for info in tests:
         if info.res == 'i' and info.args == 'ii' and re.match(r'^(U?MUL|U?DIV|U?MOD|ADD|SUB|OR|XOR|AND|LSH|RSH|URSH)O?S?$', info.name):
@@ -258,8 +271,11 @@ def generate(chk, infos, quick, c20=False):
             continue
         w = 32 if info.name.endswith('S') else 64
         pairs = G.overflow_boundary_pairs(w)
+        exact = G.overflow_exact_pairs(info.name, w, rng)
         if quick:
-            pairs = rng.sample(pairs, 70)
+            pairs = rng.sample(pairs, 60) + rng.sample(exact, min(len(exact), 90))
+        else:
+            pairs = pairs + exact
         brs = (['BO', 'BNO'] if info.ovfdef[0] == '1' else []) + (['UBO', 'UBNO'] if info.ovfdef[1] == '1' else [])
         for (a, b) in pairs:
             if w == 32:   # arbitrary upper halves
@@ -395,38 +411,42 @@ def run(chk):
 
 
 def model_search(chk, exe, oracle, infos, ops):
-    """the proof broke: evaluate every regenerated table row against DocSpec on the grid; a model-level
-    witness is then run on the real engines"""
+    """the proof broke: evaluate every regenerated table row (interpreter table, GVN fold table) against
+    DocSpec on the grid; a model-level witness is then run on the real engines (GVN witnesses with
+    immediate operands, so that the folder sees constants)"""
     rng = chk.rng('search')
     req, meta = [], []
     for info in infos:
         if not G.testable(info) or 'l' in (info.res + info.args):
             continue
         grids = [G.grid_for(k, rng, info.name, i) for i, k in enumerate(info.args)]
-        for _ in range(300):
+        for j in range(300):
             vals = [rng.choice(g) for g in grids]
+            if j < 60 and len(vals) == 2:
+                vals[1] = vals[0]
             hx = ' '.join('%x' % v for v in vals)
             kind = 'ovf' if info.name in G.OVF else 'br' if info.res == '-' else 'sem'
             req.append('%s %d %s' % (kind, info.num, hx))
             req.append('irow %d %s' % (info.num, hx))
+            req.append('grow %d %s' % (info.num, hx))
             meta.append((info, vals))
     ans = oracle.ask(req)
-    witnesses = []
+    lines, seen = [], set()
     for i, (info, vals) in enumerate(meta):
-        d, m = ans[2 * i].split(), ans[2 * i + 1].split()
+        d = ans[3 * i].split()
         if d[0] == 'N':
             continue
-        if m[0] in ('N', 'NOROW') or (d[0] in 'SO' and (int(d[1], 16) ^ int(m[1], 16)) & info.mask) or (d[0] == 'B' and d[1] != m[1]):
-            witnesses.append((info, vals, d, m))
-    if not witnesses:
+        for which, m in (('interp', ans[3 * i + 1].split()), ('gvn', ans[3 * i + 2].split())):
+            if (info.name, which) in seen or (which == 'gvn' and m[0] == 'NOROW'):
+                continue
+            wrong = m[0] in ('N', 'NOROW') or (d[0] in 'SO' and (m[0] != 'S' or (int(d[1], 16) ^ int(m[1], 16)) & info.mask)) \
+                or (d[0] == 'B' and (m[0] != 'B' or d[1] != m[1]))
+            if wrong:
+                seen.add((info.name, which))
+                shapes = ['r'] * len(vals) if which == 'interp' else ['i'] * len(vals)
+                lines.append(G.gen_case(info, rng, 'w%d' % len(lines), vals=vals, shapes=shapes, dst='r'))
+    if not lines:
         return False
-    lines = []
-    seen = set()
-    for info, vals, d, m in witnesses:
-        if info.name in seen:
-            continue
-        seen.add(info.name)
-        lines.append(G.gen_case(info, rng, 'w%d' % len(lines), vals=vals, shapes=['r'] * len(vals), dst='r'))
     bad = correspond(chk, exe, oracle, infos, lines)
     if bad:
         report(chk, bad)
